@@ -84,7 +84,13 @@ def run_unit(repo, unit, default_cfg_factory, timeout_ms=10000, second=False):
     cfg = unit.cfg() if callable(unit.cfg) else (unit.cfg or default_cfg_factory())
     engine = Engine(repo, cfg)
     if getattr(cfg, "fn_candidates_names", None):
-        cfg.fn_candidates = [repo.func(n) for n in cfg.fn_candidates_names]
+        cands = []
+        for n in cfg.fn_candidates_names:
+            try:
+                cands.append(repo.func(n))
+            except KeyError:
+                pass            # a library closure the contracts know by name is gone from the source: the clauses that mention it will fail
+        cfg.fn_candidates = cands
     res = {"unit": unit.name, "func": unit.func, "props": unit.props, "obligations": [], "error": None,
            "paths": 0, "solver_s": 0.0, "wall_s": 0.0, "vacuity": None}
     try:
